@@ -1,4 +1,7 @@
 pub mod common;
 pub mod model_family;
 pub mod c12;
+pub mod c07;
+pub mod fault_common;
+pub mod c01;
 pub mod raw_family;
